@@ -37,14 +37,14 @@ TraceInsert ==
                /\ last' = [op |-> Ev.op, p |-> Ev.p, s |-> Ev.s, raised |-> ~res.ok,
                            occupied |-> Occupied(r, Ev.p, Len(Ev.s)), falsecol |-> dev]
                /\ f'.cur = Ev.cur
-               /\ FToBytes(f') = Ev.out
+               /\ (("chk" \notin DOMAIN Ev \/ Ev.chk) => FToBytes(f') = Ev.out)      \* (long histories log the string at checkpoints only)
                /\ l' = l + 1 /\ UNCHANGED tid
 
 TraceSetCursor ==
     /\ Ev.op = "setcur"
     /\ f' = FSetCursor(f, Ev.p) /\ r' = r
     /\ last' = [NoOp EXCEPT !.op = "setcur", !.p = Ev.p]
-    /\ f'.cur = Ev.cur /\ FToBytes(f') = Ev.out
+    /\ f'.cur = Ev.cur /\ (("chk" \notin DOMAIN Ev \/ Ev.chk) => FToBytes(f') = Ev.out)
     /\ l' = l + 1 /\ UNCHANGED tid
 
 Next == l <= Len(Traces[tid]) /\ (TraceInsert \/ TraceSetCursor)
